@@ -86,7 +86,7 @@ def run(prop, tier):
             c['seed'] = vlib.jseed(seed, k) % 97
             f.write(json.dumps(c) + '\n')
     rp = os.path.join(vlib.subdir('results'), 'api.ndjson')
-    vlib.run([vh, 'api-replay', '--in', cp, '--out', rp], check=True)
+    vlib.run([vh, 'api-replay', '--in', cp, '--out', rp, '--meta-sample', '1' if tier == 'quick' else '16'], check=True, timeout=14000)
     # End on a run whose qualified polynomials sum to zero (reference dealer, harness/dkgsim/refdealer.go): accepted, fails, not running
     import dkg
     dkg.run_refdeal(ck, prop, tier, vh, seed, only_shapes=['zero-const'])
